@@ -253,7 +253,7 @@ type decCase struct {
 }
 
 func c04Points(c *kc.Ctx) {
-	reps := c.N(1, 6)
+	reps := c.N(1, 24)
 	gs := groups.All()
 	all := make([][]decCase, len(gs))
 	var wg sync.WaitGroup
@@ -524,7 +524,7 @@ func decScalarLine(g *groups.G) string {
 }
 
 func c04Scalars(c *kc.Ctx) {
-	reps := c.N(2, 30)
+	reps := c.N(2, 100)
 	type scCase struct {
 		g    *groups.G
 		b    []byte
